@@ -67,6 +67,8 @@ static inline long long verif_abs_ll(long long x) { return x < 0 ? -x : x; }
 #ifdef VERIF_CBMC
 static inline unsigned verif_bits_f32(float x) { union { float f; unsigned u; } v; v.f = x; return v.u; }
 static inline unsigned long verif_bits_f64(double x) { union { double f; unsigned long u; } v; v.f = x; return v.u; }
+static inline _Bool verif_signbit_f32(float x) { return (verif_bits_f32(x) >> 31) != 0; }
+static inline _Bool verif_signbit_f64(double x) { return (verif_bits_f64(x) >> 63) != 0; }
 int __CPROVER_uninterpreted_add_i32(int, int);
 static inline int verif_add_i32(int a, int b) { return __CPROVER_uninterpreted_add_i32(a, b) | __CPROVER_uninterpreted_add_i32(b, a); }
 unsigned int __CPROVER_uninterpreted_add_u32(unsigned int, unsigned int);
